@@ -134,6 +134,25 @@ mod real_impl {
     }
 }
 
+#[cfg(embedded_graphics_verif)]
+impl Real {
+    /// Raw representation: the `I16F16` bits with `fixed_point`, the `f32` bits otherwise.
+    pub(crate) fn verif_raw(self) -> i32 {
+        #[cfg(feature = "fixed_point")]
+        return self.0.to_bits();
+        #[cfg(not(feature = "fixed_point"))]
+        return self.0.to_bits() as i32;
+    }
+
+    /// Inverse of `verif_raw`.
+    pub(crate) fn verif_from_raw(raw: i32) -> Self {
+        #[cfg(feature = "fixed_point")]
+        return Self(fixed::types::I16F16::from_bits(raw));
+        #[cfg(not(feature = "fixed_point"))]
+        return Self(f32::from_bits(raw as u32));
+    }
+}
+
 impl Add for Real {
     type Output = Real;
 
